@@ -29,23 +29,27 @@ class Unit:
 class ContractUnit(Unit):
     kind = "contract"
 
-    def __init__(self, contract: Contract, variants=None):
+    def __init__(self, contract: Contract, variants=None, thorough_variants=None):
         self.contract = contract
         self.name = contract.target
         self.variant_names = list(variants) if variants else None      # restrict the unit to these variants of the contract
+        self.thorough_variant_names = list(thorough_variants) if thorough_variants else None     # variants run in addition in the thorough tier
 
     only = None      # index of the single variant to run (set by the parallel driver)
 
-    def variant_indices(self):
+    def variant_indices(self, tier="quick"):
         vs = list(self.contract.variants)
         if self.variant_names is None:
             return list(range(len(vs)))
-        return [vs.index(n) for n in self.variant_names]
+        names = list(self.variant_names)
+        if tier == "thorough" and self.thorough_variant_names:
+            names += [n for n in self.thorough_variant_names if n not in names]
+        return [vs.index(n) for n in names]
 
     def run(self, index, tier, seed):
         if self.only is None and self.variant_names is not None:
             out = []
-            for vi in self.variant_indices():
+            for vi in self.variant_indices(tier):
                 out += verify_unit(index, self.contract, only=vi)
             return out
         return verify_unit(index, self.contract, only=self.only)
